@@ -5,12 +5,18 @@ ROOT = os.path.dirname(os.path.dirname(os.path.abspath(__file__)))
 
 TECH = "contract-based deductive verification: Kani 0.68/CBMC function contracts and full-domain pre/post harnesses on the real functions (child module appended to a per-run copy of /repo), Verus loop-invariant proofs on mechanically extracted regions"
 
+def _c(text, design, note=None):
+    return {"text": text, "design": design,
+            "note": note or "A1 tool soundness and Kani's std/float models; A2 safe Rust memory safety where memory-safety checks are off (no `unsafe` in the crates under contract); A3 std I/O and formatting helpers behave as documented; A4 lz4/zstd unverified (compressed chunk modes not covered); A5 extraction shims (match dispatch, builder/map doubles) as listed in the evidence file; A6 reflection database arbitrary but fixed; A8 every bounded obligation holds only up to the bound stated for it in the evidence file."}
+
 CLAIMED = {
- "C01": {
-  "text": "Machine-checked contracts on the leaf mechanisms of the binary round trip: zigzag and float-rotation codecs for every bit pattern, LE/BE scalar helpers, byte interleaving, referent delta coding, rotation-id snap only within epsilon. Each is a Kani obligation over the full value domain of the real function; array lengths and column lengths are bounded stand-ins and labelled so. Traversal, referent numbering, name/alias/default lookup and the compression libraries are NOT covered, so the level is 'other', not 'proof' of the whole statement.",
-  "note": "A1 tool soundness and Kani's std/float models; A2 safe Rust memory safety where memory-safety checks are off; A4 lz4/zstd unverified; A5 arm-extraction shims; A8 bounds as stated per obligation in the evidence file.",
-  "design": "DESIGN.md sections 3 (U1,U2,U3,U6) and 4 (C01)",
- },
+ "C01": _c("Machine-checked contracts on the leaf mechanisms of the binary round trip: scalar codecs for every bit pattern, interleaving, referent deltas, every fixed-size column arm pair (verbatim-extracted) inverse at column length 2, rotation snap sound and complete w.r.t. the documented table, type-id tables, uncompressed framing. Obligations over the full value domain are counted as proved; obligations with a length bound are reported separately as bounded. Traversal, numbering, name lookup and compression are outside the contracts, so the level is 'other', not a proof of the whole statement.", "DESIGN.md sections 3 (U1-U6) and 4 (C01)"),
+ "C03": _c("Each encode arm under contract equals, byte for byte, an independent encoder written from docs/binary.md, plus documented type ids, chunk header layout and integer/float transformations. Whole-file structural clauses (counts, uniqueness, PRNT order, END chunk) are not covered.", "DESIGN.md sections 3 (U3, U4, U5) and 4 (C03)"),
+ "C04": _c("Each decode arm under contract accepts arbitrary spec-conformant wire bytes of a 2-value column and returns what an independent reader written from docs/binary.md returns, incl. non-canonical encodings and both widening arms; zigzag is a bijection; unknown ids rejected. Chunk-level degrees of freedom (order, META, unknown chunks, PRNT order) are not covered.", "DESIGN.md sections 3 (U3, U1, U4) and 4 (C04)"),
+ "C13": _c("Function-level panic-freedom: fixed-size parsers on all bytes and all truncations, decode arms and attribute arms on every truncation, error-not-panic for malformed chunk framing, short-read independence of read_exact_or_none, sink failure in ChunkBuilder::dump, text parsers. No statement about hangs, memory, whole files or the XML decoder.", "DESIGN.md sections 3 (U5, U7, U8) and 4 (C13)"),
+ "C14": _c("Per-type attribute value round trip and layout against docs/attributes.md on the verbatim-extracted arms of the writer and reader, complete in the value for fixed-size types, type-id table for all 256 ids, empty map through the real functions, CFrame through the verified contract of the rotation-id function. Multi-entry maps and the carriers of the blob are not covered.", "DESIGN.md sections 3 (U7, U4, U6) and 4 (C14)"),
+ "C15": _c("PropertyMigration::perform total on every legacy value the bundled database lists (one obligation per Enum.Font item, all BrickColor numbers, both booleans), deterministic, and the precedence rule of the binary reader's add_property on its verbatim body. XML sites and the writer pipeline are not covered; Enum.Font 46..51 and 100 are a recorded known finding.", "DESIGN.md sections 3 (U9) and 4 (C15)"),
+ "C17": _c("UniqueId text form for all ids incl. negative random parts, BrickColor/Faces/Axes/Font number tables over their whole domains, UniqueId binary column. The serde encodings and allValues.json are not covered.", "DESIGN.md sections 3 (U8) and 4 (C17)"),
 }
 
 NOT_APPLICABLE = {
